@@ -4,12 +4,14 @@ import (
 	"bufio"
 	"bytes"
 	"context"
+	"crypto/sha256"
 	"encoding/json"
 	"fmt"
 	"io"
 	"net/http"
 	"net/http/httptest"
 	"os"
+	"reflect"
 	"regexp"
 	"runtime"
 	"sort"
@@ -53,13 +55,85 @@ type fakeCH struct {
 	doLog   map[string]int // INSERT statement -> blocks received since the last takeDoLog
 	mode    string         // database outcome (see dbOutcomes)
 	seq     int            // blocks received since setMode
+	holdC   chan struct{}
+	held    bool
+	digests map[string]string // INSERT statement -> digest of the last accepted block (all columns, wire encoding)
 }
 
 var errInjected = fmt.Errorf("fake ClickHouse: injected INSERT failure")
 
+// blockDigest: digest of a block as a MULTISET of rows (several decoders emit rows in map order).  One-row blocks
+// and columns of plain types are covered; a multi-row block with an array / tuple column is not comparable ("").
+func blockDigest(in proto.Input, rows int) string {
+	if rows == 1 {
+		h := sha256.New()
+		for _, c := range in {
+			var b proto.Buffer
+			c.Data.EncodeColumn(&b)
+			h.Write([]byte(c.Name))
+			h.Write(b.Buf)
+		}
+		return fmt.Sprintf("1 row %x", h.Sum(nil)[:8])
+	}
+	lines := make([]string, rows)
+	for _, c := range in {
+		for i := 0; i < rows; i++ {
+			var cell string
+			switch d := c.Data.(type) {
+			case *proto.ColStr:
+				cell = d.Row(i)
+			case *proto.ColFixedStr:
+				cell = string(d.Row(i))
+			default:
+				v := reflect.ValueOf(c.Data)
+				if v.Kind() == reflect.Ptr {
+					v = v.Elem()
+				}
+				if v.Kind() != reflect.Slice || v.Len() != rows {
+					return ""
+				}
+				cell = fmt.Sprint(v.Index(i).Interface())
+			}
+			lines[i] += c.Name + "=" + strconv.Quote(cell) + ";"
+		}
+	}
+	sort.Strings(lines)
+	h := sha256.New()
+	for _, l := range lines {
+		h.Write([]byte(l))
+		h.Write([]byte{0})
+	}
+	return fmt.Sprintf("%d rows %x", rows, h.Sum(nil)[:8])
+}
+
+// hold_fail_first: the first block after setMode is held inside Do until release() and then refused; everything else
+// is accepted.  While it is held, the request that sent it has been parsed and waits for its retry.
+func (f *fakeCH) release() {
+	f.mu.Lock()
+	if f.holdC != nil {
+		close(f.holdC)
+		f.holdC = nil
+	}
+	f.mu.Unlock()
+}
+
+func (f *fakeCH) holding() bool {
+	f.mu.Lock()
+	defer f.mu.Unlock()
+	return f.held
+}
+
+func (f *fakeCH) takeDigests() map[string]string {
+	f.mu.Lock()
+	defer f.mu.Unlock()
+	r := f.digests
+	f.digests = map[string]string{}
+	return r
+}
+
 func (f *fakeCH) setMode(m string) {
 	f.mu.Lock()
-	f.mode, f.seq = m, 0
+	f.mode, f.seq, f.held = m, 0, false
 	f.mu.Unlock()
 }
 
@@ -72,7 +146,20 @@ func (f *fakeCH) Ping(ctx context.Context) error { return nil }
 func (f *fakeCH) Do(ctx context.Context, q ch.Query) error {
 	f.mu.Lock()
 	slow := f.mode == "slow"
+	var wait chan struct{}
+	if f.mode == "hold_fail_first" && f.seq == 0 && !f.held {
+		f.held, f.seq = true, 1
+		f.holdC = make(chan struct{})
+		wait = f.holdC
+	}
 	f.mu.Unlock()
+	if wait != nil {
+		select {
+		case <-wait:
+		case <-time.After(3 * time.Second):
+		}
+		return errInjected
+	}
 	if slow {
 		time.Sleep(30 * time.Millisecond)
 	}
@@ -103,6 +190,9 @@ func (f *fakeCH) Do(ctx context.Context, q ch.Query) error {
 		if !rect {
 			return errNotRectangular // as the server would: the whole block, with every client's rows in it, is refused
 		}
+	}
+	if f.digests != nil && rect && first > 0 {
+		f.digests[q.Body] = blockDigest(q.Input, first)
 	}
 	f.seq++
 	switch f.mode {
@@ -344,22 +434,27 @@ func shortSite(s string) string {
 
 // Result of one input (journal "E" record).
 type Result struct {
-	ID         int            `json:"id"`
-	Status     int            `json:"status"`
-	Panic      string         `json:"panic,omitempty"` // panic inside the handler goroutine (net/http would swallow it: no response)
-	PanicSite  string         `json:"panic_site,omitempty"`
-	Requests   int64          `json:"svc_requests"` // calls into insert services caused by the input
-	Inserts    int            `json:"insert_blocks"`
-	Issues     []blockIssue   `json:"block_issues,omitempty"`
-	Leaked     []string       `json:"leaked,omitempty"` // goroutines of the request still alive after the grace ("site [state]")
-	FollowUp   int            `json:"followup_status,omitempty"`
-	FollowSeen bool           `json:"followup_rows_seen,omitempty"`
-	FollowDone bool           `json:"followup_done,omitempty"`
-	FollowIss  []blockIssue   `json:"followup_block_issues,omitempty"`
-	SharedMode bool           `json:"shared_mode,omitempty"`  // the follow-up push was already waiting in the batch when the input arrived
-	Shared     bool           `json:"shared_batch,omitempty"` // ... and both went to the fake in the same block(s)
-	Blocks     map[string]int `json:"blocks,omitempty"`
-	MicroS     int64          `json:"us"`
+	ID          int            `json:"id"`
+	Status      int            `json:"status"`
+	Panic       string         `json:"panic,omitempty"` // panic inside the handler goroutine (net/http would swallow it: no response)
+	PanicSite   string         `json:"panic_site,omitempty"`
+	Requests    int64          `json:"svc_requests"` // calls into insert services caused by the input
+	Inserts     int            `json:"insert_blocks"`
+	Issues      []blockIssue   `json:"block_issues,omitempty"`
+	Leaked      []string       `json:"leaked,omitempty"` // goroutines of the request still alive after the grace ("site [state]")
+	FollowUp    int            `json:"followup_status,omitempty"`
+	FollowSeen  bool           `json:"followup_rows_seen,omitempty"`
+	FollowDone  bool           `json:"followup_done,omitempty"`
+	FollowIss   []blockIssue   `json:"followup_block_issues,omitempty"`
+	SharedMode  bool           `json:"shared_mode,omitempty"` // the follow-up push was already waiting in the batch when the input arrived
+	Interleaved bool           `json:"interleaved,omitempty"` // the input was sent while another client's push (A) waited for the retry of its refused INSERT
+	AStatus     int            `json:"a_status,omitempty"`
+	AHeld       bool           `json:"a_held,omitempty"`    // A's first INSERT block really was held when the input was sent
+	AAltered    []string       `json:"a_altered,omitempty"` // INSERT statements whose finally accepted block for A differs from the one A yields alone
+	ACompared   int            `json:"a_compared,omitempty"`
+	Shared      bool           `json:"shared_batch,omitempty"` // ... and both went to the fake in the same block(s)
+	Blocks      map[string]int `json:"blocks,omitempty"`
+	MicroS      int64          `json:"us"`
 }
 
 type stallInfo struct {
@@ -375,6 +470,7 @@ type workerEnv struct {
 	n        int
 	mkSeq    int
 	base     map[int]gor // census after the previous request settled = baseline of the next one
+	ilvRef   map[string]map[string]string
 }
 
 func (w *workerEnv) emit(kind string, v any) {
@@ -620,6 +716,126 @@ func (w *workerEnv) runShared(in *Input) Result {
 	return res
 }
 
+const ilvMarker = "verifmk0000000x"
+
+// reference: the blocks the valid seed of a family (fixed marker) yields when pushed alone, twice; only INSERT
+// statements whose block is identical both times are comparable (some decoders stamp rows with time.Now)
+func (w *workerEnv) ilvReference(fam string, base map[int]gor) map[string]string {
+	if r, ok := w.ilvRef[fam]; ok {
+		return r
+	}
+	rs, ct := routeForFamily(fam)
+	var hs [][2]string
+	if ct.CT != "" {
+		hs = append(hs, [2]string{"Content-Type", ct.CT})
+	}
+	path, q := rs.Path, rs.Query
+	if fam == "pprof_multipart" || fam == "pprof_binary" {
+		q = "name=" + ilvMarker + "&from=1700000000&until=1700000010"
+	}
+	if q != "" {
+		path += "?" + q
+	}
+	var runs [2]map[string]string
+	for i := range runs {
+		w.ing.fake.takeDigests()
+		w.serve(-1, rs.Method, path, hs, seedBody(fam, ilvMarker), base)
+		runs[i] = w.ing.fake.takeDigests()
+	}
+	ref := map[string]string{}
+	for k, v := range runs[1] {
+		if runs[0][k] == v || strings.Contains(k, "time_series") {
+			if runs[0][k] == v {
+				ref[k] = v
+			}
+		}
+	}
+	if w.ilvRef == nil {
+		w.ilvRef = map[string]map[string]string{}
+	}
+	w.ilvRef[fam] = ref
+	return ref
+}
+
+// runInterleaved: history "A (valid push of another client) is parsed, its first INSERT is refused -> the input B is
+// sent while A waits for its retry -> A's retry succeeds".  What ClickHouse finally receives for A must be what A
+// yields alone.  GOMAXPROCS(1) makes hand-over of pooled objects between the two requests deterministic.
+func (w *workerEnv) runInterleaved(in *Input) Result {
+	runtime.GOMAXPROCS(1)
+	t0 := time.Now()
+	res := Result{ID: in.ID, Interleaved: true}
+	base := w.base
+	if base == nil {
+		base = census()
+	}
+	fam := followFamily(in)
+	w.ing.fake.mu.Lock()
+	if w.ing.fake.digests == nil {
+		w.ing.fake.digests = map[string]string{}
+	}
+	w.ing.fake.mu.Unlock()
+	ref := w.ilvReference(fam, base)
+	rs, ct := routeForFamily(fam)
+	var hs [][2]string
+	if ct.CT != "" {
+		hs = append(hs, [2]string{"Content-Type", ct.CT})
+	}
+	path, q := rs.Path, rs.Query
+	if fam == "pprof_multipart" || fam == "pprof_binary" {
+		q = "name=" + ilvMarker + "&from=1700000000&until=1700000010"
+	}
+	if q != "" {
+		path += "?" + q
+	}
+	w.ing.fake.takeIssues()
+	w.ing.fake.takeDoLog()
+	w.ing.fake.takeDigests()
+	w.ing.fake.setMode("hold_fail_first")
+	a := make(chan serveOut, 1)
+	go func() { a <- w.serve(in.ID, rs.Method, path, hs, seedBody(fam, ilvMarker), base) }()
+	for i := 0; i < 4000 && !w.ing.fake.holding(); i++ {
+		time.Sleep(500 * time.Microsecond)
+	}
+	res.AHeld = w.ing.fake.holding()
+	rB := atomic.LoadInt64(&svcRequests)
+	// B; if its own rows queue up behind the held block it cannot be answered before the release: release after 300 ms
+	bDone := make(chan serveOut, 1)
+	go func() { bDone <- w.serve(in.ID, in.Method, in.Path, in.Headers, in.Body, base) }()
+	var so serveOut
+	select {
+	case so = <-bDone:
+		w.ing.fake.release()
+	case <-time.After(300 * time.Millisecond):
+		w.ing.fake.release()
+		so = <-bDone
+	}
+	ao := <-a
+	w.ing.fake.setMode("")
+	res.Status, res.Panic, res.PanicSite = so.status, so.panicked, so.panicSite
+	res.Requests = atomic.LoadInt64(&svcRequests) - rB
+	res.AStatus = ao.status
+	res.Leaked, w.base = settle(base)
+	res.Issues = w.ing.fake.takeIssues()
+	got := w.ing.fake.takeDigests()
+	for _, n := range w.ing.fake.takeDoLog() {
+		res.Inserts += n
+	}
+	// comparable only when B contributed no rows of its own (rejected, or touched no insert service)
+	if so.status/100 != 2 || res.Requests == 0 {
+		for k, want := range ref {
+			if g, ok := got[k]; ok && g != "" && want != "" {
+				res.ACompared++
+				if g != want {
+					res.AAltered = append(res.AAltered, k+": "+g+" instead of "+want)
+				}
+			}
+		}
+		sort.Strings(res.AAltered)
+	}
+	res.MicroS = time.Since(t0).Microseconds()
+	return res
+}
+
 // followFamily: which family's valid seed is pushed after this input (same decoder family where there is one).
 func followFamily(in *Input) string {
 	switch in.Family {
@@ -792,6 +1008,8 @@ func workerMain(file string, offset int64, count int, deadline time.Duration, st
 		var r Result
 		if shared {
 			r = w.runShared(&in)
+		} else if in.Gen == "ilv" {
+			r = w.runInterleaved(&in)
 		} else {
 			r = w.run(&in, count == 1)
 		}
